@@ -235,13 +235,12 @@ def parse_prints(out: str) -> list:
     res = []
     i = 0
     n = len(out)
+    start = re.compile(r'^<<\s*"', re.M)
     while True:
-        j = out.find('<<"', i)
-        if j < 0:
+        m = start.search(out, i)
+        if not m:
             break
-        if j > 0 and out[j - 1] not in "\n\r":
-            i = j + 3
-            continue
+        j = m.start()
         try:
             val, k = _parse_value(out, j)
         except Exception:
